@@ -137,6 +137,16 @@ func (fa *flowAnalyzer) pos(p token.Pos) string {
 	return fmt.Sprintf("%s:%d", shortFile(pp.Filename), pp.Line)
 }
 
+// isTracked: locals, and parameter *variables* (a parameter starts out
+// referencing the caller's memory but may be rebound: `m = maps.Clone(m)`).
+func (fa *flowAnalyzer) isTracked(o types.Object) bool {
+	if fa.isLocal(o) {
+		return true
+	}
+	_, isParam := fa.paramIdx[o]
+	return isParam
+}
+
 func (fa *flowAnalyzer) isLocal(o types.Object) bool {
 	v, ok := o.(*types.Var)
 	if !ok || v.Pkg() == nil {
@@ -195,7 +205,7 @@ func (fa *flowAnalyzer) root(e ast.Expr) (obj types.Object, deref bool, path str
 // holderFresh: is the memory *referenced by* the value of expression e (a
 // variable or a field path of a local struct value) allocated here?
 func (fa *flowAnalyzer) holderFresh(o types.Object, path string, st *fstate) bool {
-	if o == nil || !fa.isLocal(o) {
+	if o == nil || !fa.isTracked(o) {
 		return false
 	}
 	if !st.fresh[o] {
@@ -241,7 +251,11 @@ func (fa *flowAnalyzer) isFresh(e ast.Expr, st *fstate) bool {
 				// slice/map literal of reference values: elements may be shared, the container is fresh
 				continue
 			}
-			_ = v
+			// a struct value carries the references stored in its fields: it is
+			// fresh only if they are
+			if isRefType(info.TypeOf(v)) && !fa.isFresh(v, st) {
+				return false
+			}
 		}
 		return true
 	case *ast.BasicLit, *ast.FuncLit:
@@ -350,7 +364,7 @@ func (fa *flowAnalyzer) shared(e ast.Expr, st *fstate, needDeref bool) (bool, in
 	if o == nil {
 		return true, -2, "memory reached through an expression result"
 	}
-	if pi, isP := fa.paramIdx[o]; isP {
+	if pi, isP := fa.paramIdx[o]; isP && !fa.holderFresh(o, p, st) {
 		return true, pi, "memory reachable from parameter " + o.Name()
 	}
 	if v, ok := o.(*types.Var); ok && v.Pkg() != nil && v.Parent() == v.Pkg().Scope() {
@@ -406,7 +420,7 @@ func (fa *flowAnalyzer) setVar(lhs ast.Expr, rhs ast.Expr, st *fstate, rhsFresh 
 			return
 		}
 		o := info.ObjectOf(x)
-		if o == nil || !fa.isLocal(o) {
+		if o == nil || !fa.isTracked(o) {
 			return
 		}
 		if !isRefType(o.Type()) {
@@ -669,7 +683,7 @@ func (fa *flowAnalyzer) stmt(s ast.Stmt, st *fstate) *fstate {
 		}
 		fa.expr(x.Cond, st)
 		thenSt, elseSt := st.clone(), st.clone()
-		if o, isEq, ok := fa.nilTest(x.Cond); ok && o != nil && fa.isLocal(o) {
+		if o, isEq, ok := fa.nilTest(x.Cond); ok && o != nil && fa.isTracked(o) {
 			// on the branch where the variable is nil it references no memory at all
 			if isEq {
 				thenSt.fresh[o] = true
